@@ -1457,7 +1457,11 @@ func ruleTokenIdFromAdd(c *Ctx) {
 				continue
 			}
 			if _, f := loadedField(st.Val); f == fID {
-				c.S.Trivial(id, key, c.Pos(st.Pos()), "copied from another command object (the replay runs under the id of the EXEC that holds the lock)")
+				if fa, ok := st.Addr.(*ssa.FieldAddr); ok && isFresh(fa.X) {
+					c.S.Bad(id, key, c.Pos(st.Pos()), fmt.Sprintf("%s makes a new command object with the id of another one: ids are drawn per database, so in the other database the same number can belong to the EXEC that holds its lock — the new object passes the owner test without the mutex", fnName(fn)))
+					continue
+				}
+				c.S.Trivial(id, key, c.Pos(st.Pos()), "copied into an existing command object (the replay runs under the id of the EXEC that holds the lock)")
 				continue
 			}
 			if ok, why := fromAdd(st.Val, 0); ok {
@@ -1760,5 +1764,83 @@ func ruleParamSliceNotReordered(c *Ctx) {
 	}
 	if bad == 0 {
 		c.S.OK(id, "all", "-", fmt.Sprintf("%d sorting/compacting call(s) in handler-reachable code, none on a slice parameter", n))
+	}
+}
+
+// ---------------------------------------------------------------- R-C16-foreign-db-own-lock
+
+const textForeignDbOwnLock = "R-C16-foreign-db-own-lock: the lock analysis works with lock classes, not lock instances; this rule decides the one instance question that the code base raises: a command that changes ANOTHER database than its own (FLUSHALL, a cross-database copy) does so through a command object of that database (whose lock() takes that database's mutex). A call of a mutating method of the database type whose receiver is neither the `ds` of a command object, nor the function's own receiver or parameter, nor a database for which the function makes a command object, runs under the caller's own database lock — the wrong mutex"
+
+func ruleC16ForeignDbOwnLock(c *Ctx) {
+	const id = "R-C16-foreign-db-own-lock"
+	c.S.Rule(id, textForeignDbOwnLock, 0)
+	mm := c.M.Muts()
+	fDs := c.Field("dataStoreCommand", "ds")
+	if len(mm.errs) > 0 || fDs == nil {
+		c.S.Undecided(id, "anchors", "-", "mutation model / dataStoreCommand.ds not available")
+		return
+	}
+	mutates := map[*ssa.Function]bool{}
+	isMutating := func(g *ssa.Function) bool {
+		if v, ok := mutates[g]; ok {
+			return v
+		}
+		r := false
+		for f := range c.M.Reach(g) {
+			if len(mm.sites[f]) > 0 {
+				r = true
+			}
+		}
+		mutates[g] = r
+		return r
+	}
+	n, bad := 0, 0
+	for _, fn := range c.SrcFuncs() {
+		k := 0
+		for _, in := range instrsOf(fn) {
+			call, ok := in.(ssa.CallInstruction)
+			if !ok {
+				continue
+			}
+			g := call.Common().StaticCallee()
+			if g == nil || !c.InPkg(g) || g.Signature.Recv() == nil || !c.isPkgType(g.Signature.Recv().Type(), "dataStore") || len(call.Common().Args) == 0 || !isMutating(g) {
+				continue
+			}
+			n++
+			recv := call.Common().Args[0]
+			if _, f := loadedField(recv); f == fDs {
+				continue // the command object's own database
+			}
+			root := resolveLocal(recv)
+			if _, isParam := root.(*ssa.Parameter); isParam {
+				continue // the caller's: judged there
+			}
+			if _, isFV := root.(*ssa.FreeVar); isFV {
+				continue
+			}
+			if isFresh(recv) || freshEverywhere(c.Prog, recv, 0) {
+				continue // a database under construction
+			}
+			// a command object is made for that database in this function
+			own := false
+			for _, in2 := range instrsOf(fn) {
+				if c2, ok := in2.(*ssa.Call); ok {
+					if h := c2.Call.StaticCallee(); h != nil && h.Signature.Results().Len() == 1 && c.isPkgType(h.Signature.Results().At(0).Type(), "dataStoreCommand") && len(c2.Call.Args) > 0 {
+						if c2.Call.Args[0] == recv || sameValue(c2.Call.Args[0], recv) {
+							own = true
+						}
+					}
+				}
+			}
+			if own {
+				continue
+			}
+			k++
+			bad++
+			c.S.Bad(id, fmt.Sprintf("%s:%s#%d", fnName(fn), fnName(g), k), c.Pos(call.Pos()), fmt.Sprintf("%s changes a database that is not its command object's own through %s without making a command object (and so taking the mutex) of that database: connections working in that database race with it", fnName(fn), fnName(g)))
+		}
+	}
+	if bad == 0 {
+		c.S.OK(id, "all", "-", fmt.Sprintf("%d call(s) of mutating database methods, each on the command object's own database, the caller's, or one a command object is made for", n))
 	}
 }
